@@ -598,12 +598,23 @@ def decode_case(ctx, res: Result, case, reqs, pending):
         return
     samples = case["samples"]  # list of [ [[var, 0/1]...], energy ]
     rec = _Rand(ctx.rng.__class__(case.get("rseed", 0)))
-    old = qbqm.random
+    # the module's `random` is replaced by a recording one; a tree whose bqm.py does not import random at all
+    # (it may fill unspelled bits some other way) is observed without it
+    _missing = object()
+    old = getattr(qbqm, "random", _missing)
+
+    def _restore():
+        if old is _missing:
+            if hasattr(qbqm, "random"):
+                delattr(qbqm, "random")
+        else:
+            qbqm.random = old
+
     qbqm.random = rec
     try:
         out = qbqm.decode_samples(sub.qf, [(dict(s), e) for s, e in samples])
     except Exception as e:  # noqa
-        qbqm.random = old
+        _restore()
         t, err, _ = real_export(sub, "pq_model")
         if err is not None:
             res.count(case, nontrivial=False, bucket="decode-rejected:" + err.split(":")[0])
@@ -612,7 +623,7 @@ def decode_case(ctx, res: Result, case, reqs, pending):
         res.violation(case, f"decode_samples raised {type(e).__name__}: {e}")
         return
     finally:
-        qbqm.random = old
+        _restore()
     res.count(case, bucket="decode")
     draws = list(rec.draws)
     if len(out) != len(samples):
